@@ -51,6 +51,14 @@ NOT_DELEGATING = {"ada_parse", "ada_parse_with_base", "ada_can_parse", "ada_can_
                   "ada_free_search_params_values_iter", "ada_free_search_params_entries_iter",
                   "ada_set_max_input_length", "ada_get_max_input_length", "ada_get_version",
                   "ada_get_version_components"}
+D3_SHAPES = {
+    "ada_parse": [("input", None)],
+    "ada_parse_with_base": [("base", None), ("input", "base")],
+    "ada_can_parse": [("input", None)],
+    "ada_can_parse_with_base": [("input", "base")],
+    "ada_idna_to_unicode": [("input", None)],
+    "ada_idna_to_ascii": [("input", None)],
+}
 FREE_DELEGATION = {"ada_can_parse": "ada::can_parse", "ada_can_parse_with_base": "ada::can_parse",
                    "ada_idna_to_unicode": "ada::idna::to_unicode", "ada_idna_to_ascii": "ada::idna::to_ascii",
                    "ada_set_max_input_length": "ada::set_max_input_length",
@@ -74,7 +82,9 @@ def make_ctx(tier):
 def run(ctx, tier):
     for r, t in (("G1", "guard before deref of the handle"), ("G1b", "disengaged exit returns the documented default"),
                  ("D1", "delegation to the member of the same name; data/length of the same object"),
-                 ("D2", "pointer/length parameters are paired"), ("F1", "alloc / access / free types agree"),
+                 ("D2", "pointer/length parameters are paired"),
+                 ("D3", "free-function wrappers make exactly the calls of the C++ operation (input with its base)"),
+                 ("F1", "alloc / access / free types agree"),
                  ("H1", "header and implementation agree")):
         ctx.rule(r, t)
     cfgs = C.configs_for(tier, thorough=["release", "devchecks", "amalgamated", "nopattern"])
@@ -227,6 +237,44 @@ def check(ctx, fx, hx):
             calls = [nd for nd, s, b in C.all_nodes(f) if nd.get("k") == "call" and nd.get("qname") == tgt]
             ctx.check("D1", "%s -> %s" % (n, tgt), len(calls) >= 1, "calls %s" % tgt,
                       "%s no longer calls %s" % (n, tgt), where=where)
+            # D3: the exact set of calls: which parameter feeds the first argument, and whether the
+            # (parsed) base is passed along.  A wrapper that also parses the input *without* its base,
+            # or forgets the base, does not compute what the C++ operation computes.
+            pnames = {p["id"]: p["name"] for p in f["params"]}
+            defs = {}
+            for b2 in f["blocks"]:
+                for s2 in b2["stmts"]:
+                    if s2["k"] == "decl":
+                        for v in s2["vars"]:
+                            if v.get("init") is not None:
+                                defs[v["id"]] = v["init"]
+
+            def feeds(e, depth=0):
+                out = set()
+                for x in X.walk(e):
+                    if x.get("k") == "ref" and x.get("kind") == "param":
+                        out.add(pnames.get(x.get("id"), x.get("name")))
+                    elif x.get("k") == "ref" and x.get("kind") == "local" and depth < 3 and x.get("id") in defs:
+                        out |= feeds(defs[x["id"]], depth + 1)
+                return out
+            shape = []
+            for c in calls:
+                a = c.get("args", [])
+                first = feeds(a[0]) if a else set()
+                first = "base" if "base" in first else ("input" if "input" in first else "?")
+                second = None
+                if len(a) > 1:
+                    a1 = X.strip(a[1])
+                    if not (isinstance(a1, dict) and a1.get("k") == "lit" and a1.get("null")):
+                        second = "base" if "base" in feeds(a[1]) else "?"
+                shape.append((first, second))
+            want = D3_SHAPES.get(n)
+            if want is not None:
+                ctx.check("D3", "%s: calls of %s" % (n, tgt), sorted(shape, key=str) == sorted(want, key=str),
+                          "exactly %s" % want,
+                          "%s calls %s with (first argument from, base) = %s; the C++ operation it wraps is %s: the result "
+                          "would not be what ada::%s returns for the same arguments" % (n, tgt, shape, want, tgt.split("::")[-1]),
+                          where=where)
         check_strings(ctx, f, n)
         # --- F1 collection ---
         for nd, s, b in C.all_nodes(f):
